@@ -319,6 +319,7 @@ type c34SC struct {
 
 type c34Pass struct {
 	num      int
+	listGen  int // resolver result the candidate orders belong to
 	cands    [][]string
 	pos      []int
 	active   bool
@@ -332,14 +333,18 @@ type c34H struct {
 	env     *scEnv
 	pass    *c34Pass
 	npass   int
-	list    [][]string // candidate orders of the resolver result in force
+	list    [][]string // candidate orders of the resolver result in force (narrowed by what was observed)
+	listGen int
 	addrSet map[string]bool
 	last    connectivity.State // last reported state
 	hasLast bool
 	sticky  bool
 	exempt  int  // >0: inside ResolverError / empty update / health delivery (TF reports there are not pass ends)
 	closing bool // Close called: checks off
-	fullOrd []string
+	// delivering: the subchannel whose state listener is being called
+	delivering  *fakeSC
+	stickySince uint64
+	fullOrd     []string
 }
 
 func (h *c34H) info(sc *fakeSC) *c34SC {
@@ -368,7 +373,7 @@ func (h *c34H) okToPick(sc *fakeSC) bool {
 // startPass begins a new pass over the address list in force.
 func (h *c34H) startPass(why string) {
 	h.npass++
-	p := &c34Pass{num: h.npass, cands: h.list, active: len(h.list) > 0, lastConn: -1 << 62}
+	p := &c34Pass{num: h.npass, listGen: h.listGen, cands: h.list, active: len(h.list) > 0, lastConn: -1 << 62}
 	p.pos = make([]int, len(p.cands))
 	for i := range p.pos {
 		p.pos[i] = -1
@@ -470,6 +475,9 @@ func (h *c34H) onConnect(sc *fakeSC) {
 		e.Probe("shuffle_order_narrowed")
 	}
 	p.cands, p.pos, p.lastConn = keepC, keepP, now
+	if p.listGen == h.listGen {
+		h.list = keepC // the shuffle is decided once per resolver result
+	}
 	in := h.info(sc)
 	in.connPass, in.tfAfterConn = p.num, false
 	h.fullOrd = append(h.fullOrd, addr)
@@ -508,11 +516,21 @@ func (h *c34H) mustHaveReportedTF(p *c34Pass) bool {
 	return true
 }
 
+// sweep runs at the end of every serialised call into the policy.
 func (h *c34H) sweep() {
 	for _, sc := range h.cc.Subs {
 		if sc.ShutdownCalled || sc.Delivered != connectivity.Ready {
 			in := h.info(sc)
 			in.rawReady, in.healthReady = false, false
+		}
+	}
+	// while READY is what the channel was last told, the selected subchannel
+	// is the only one alive (a straggling timer must not open new ones)
+	if u := h.cc.Latest(); u != nil && u.State.ConnectivityState == connectivity.Ready && !h.closing {
+		if res, err := u.State.Picker.Pick(balancer.PickInfo{}); err == nil {
+			if sel := asFakeSC(res.SubConn); sel != nil && !sel.ShutdownCalled {
+				h.othersShutDown(sel, "while READY")
+			}
 		}
 	}
 }
@@ -554,7 +572,12 @@ func (h *c34H) onUpdateState(u *ccUpdate) {
 		}
 	case connectivity.Connecting:
 		if h.sticky {
-			e.Violate("sticky_tf", "CONNECTING reported after every address had failed and before any subchannel became READY")
+			if d := h.delivering; d != nil && d.CreatedSeq > h.stickySince {
+				// kept apart from the other ways of leaving sticky TF: see known_findings.json
+				e.Violate("sticky_tf_new_subchannel", "CONNECTING reported after every address had failed and before any subchannel became READY: triggered by CONNECTING of sc%d (%s), a subchannel created for a resolver update that arrived during TRANSIENT_FAILURE", d.ID, d.Addr())
+			} else {
+				e.Violate("sticky_tf", "CONNECTING reported after every address had failed and before any subchannel became READY")
+			}
 			h.sticky = false
 		}
 		if h.hasLast && h.last == connectivity.Idle {
@@ -584,6 +607,9 @@ func (h *c34H) onUpdateState(u *ccUpdate) {
 				}
 			}
 			p.active = false
+			if !h.sticky {
+				h.stickySince = e.Seq
+			}
 			h.sticky = true
 		}
 	}
@@ -609,6 +635,7 @@ func (h *c34H) before(sc *fakeSC, kind string, s connectivity.State) {
 		return
 	}
 	in := h.info(sc)
+	h.delivering = sc
 	if kind == "health" {
 		h.exempt++
 		if s == connectivity.Ready {
@@ -655,6 +682,7 @@ func (h *c34H) before(sc *fakeSC, kind string, s connectivity.State) {
 }
 
 func (h *c34H) after(sc *fakeSC, kind string, s connectivity.State) {
+	h.delivering = nil
 	if h.closing {
 		return
 	}
@@ -710,11 +738,7 @@ func runC34(e *core.Env, s *c34Scenario) {
 	env.Before, env.After, env.OnConnect = h.before, h.after, h.onConnect
 	cc.OnUpdateState = h.onUpdateState
 	pf := balancer.Get(pickfirst.Name).Build(cc, balancer.BuildOptions{})
-	var cfgShuffle, cfgPlain serviceconfig.LoadBalancingConfig
-	if p, ok := balancer.Get(pickfirst.Name).(balancer.ConfigParser); ok {
-		cfgShuffle, _ = p.ParseConfig([]byte(`{"shuffleAddressList": true}`))
-		cfgPlain, _ = p.ParseConfig([]byte(`{}`))
-	}
+	cfgShuffle, cfgPlain := pfCfgShuffle, pfCfgPlain
 
 	done := false
 	// picker users: RPCs picking on the latest published picker
@@ -771,6 +795,7 @@ func runC34(e *core.Env, s *c34Scenario) {
 						}
 					}
 					h.list = c34Candidates(shuffleUnits, u.Shuffle)
+					h.listGen++
 					h.addrSet = map[string]bool{}
 					for _, a := range h.list[0] {
 						h.addrSet[a] = true
@@ -853,4 +878,20 @@ func runC34(e *core.Env, s *c34Scenario) {
 	synctest.Wait()
 }
 
-func init() { core.Register("C34", genC34, runC34) }
+// The pick_first configs are parsed once, outside any bubble: encoding/json
+// keeps its per-type cache in a process-global sync.Map whose hash seed is
+// drawn at process start, so the number of atomic loads (= scheduling points)
+// of a lookup differs from process to process.
+var pfCfgShuffle, pfCfgPlain serviceconfig.LoadBalancingConfig
+
+func init() {
+	p := balancer.Get(pickfirst.Name).(balancer.ConfigParser)
+	var err error
+	if pfCfgShuffle, err = p.ParseConfig([]byte(`{"shuffleAddressList": true}`)); err != nil {
+		panic(err)
+	}
+	if pfCfgPlain, err = p.ParseConfig([]byte(`{}`)); err != nil {
+		panic(err)
+	}
+	core.Register("C34", genC34, runC34)
+}
